@@ -150,6 +150,9 @@ def _compute_hmac_bytes(hmac_key: bytes, cache_key: str, raw_bytes: bytes) -> st
     return hmac.new(hmac_key, msg, hashlib.sha256).hexdigest()
 
 
+_UNTRUSTED_RECORD = object()  # what DiskCache reads for a record that is not raw bytes / text
+
+
 class DiskCache:
     """Persistent disk-based cache using diskcache.
 
@@ -180,7 +183,18 @@ class DiskCache:
         except ImportError:
             raise ImportError("diskcache is required for DiskCache. Install it with: pip install 'hypergraph[cache]'") from None
 
+        class _RawOnlyDisk(diskcache.Disk):
+            """Never unpickles: DiskCache stores bytes and str only, so a record in
+            pickle mode was not written by it and must not be loaded before the
+            HMAC check (loading it would run whatever the pickle says)."""
+
+            def fetch(self, mode: int, filename: Any, value: Any, read: bool) -> Any:
+                if mode == diskcache.core.MODE_PICKLE:
+                    return _UNTRUSTED_RECORD
+                return super().fetch(mode, filename, value, read)
+
         expanded = os.path.expanduser(cache_dir)
+        kwargs.setdefault("disk", _RawOnlyDisk)
         self._cache = diskcache.Cache(expanded, **kwargs)
         self._hmac_key = _load_or_create_hmac_key(expanded)
 
@@ -217,7 +231,11 @@ class DiskCache:
             self._cache.delete(key + self._HMAC_SUFFIX)
             return False, None
 
-        if not hmac.compare_digest(stored_hmac, expected_hmac):
+        try:
+            authentic = hmac.compare_digest(stored_hmac, expected_hmac)
+        except TypeError:
+            authentic = False  # e.g. a signature altered into non-ASCII text
+        if not authentic:
             logger.warning(
                 "Cache HMAC mismatch for key %s — possible tampering, evicting",
                 key,
